@@ -4,7 +4,7 @@
    starts with its tag, the tag dispatches to its field, the field decoder reads the group back
    leaving what follows) are exactly what the C01 field lemmas provide — the Example below discharges
    them for a shipped packet. *)
-From Zvt Require Import Base Length Cp437 Encoding EncodingProps Codec Lookup CodecRoundtrip CodecTags CodecFields.
+From Zvt Require Import Base Length Cp437 Encoding EncodingProps Codec Lookup CodecRoundtrip CodecTags CodecFields CodecCanon CanonClass CanonRoundtrip CanonShipped.
 From Zvt.gen Require Import Layouts Tables.
 From Coq Require Import Permutation.
 Open Scope N_scope.
@@ -19,6 +19,30 @@ Theorem C13_perm_invariant : forall D fs ps gs gs' tail,
   dec_struct_with D fs (concat (map snd ps) ++ gbytes gs' ++ tail) =
     Ok (VRec (apply_groups (init_slots fs (map (fun x => snd (fst x)) ps)) gs), tail).
 Proof. exact perm_invariant. Qed.
+
+(* ... instantiated: for EVERY layout and every value of the decidable class `canon_anyorder` (CanonClass.v: as
+   `canon`, with self-delimiting positional fields), the tagged groups in ANY permutation decode to that value *)
+Theorem C13_any_order_for_the_class : forall fs v pl, canon_anyorder fs v = Some pl ->
+  exists vs (pos : bytes) (gs : list group), v = VRec vs /\ pl = pos ++ gbytes gs /\ enc_struct fs v = Ok pl /\
+    forall gs', Permutation gs gs' -> forall fuel, (depth_fields fs <= S fuel)%nat ->
+      dec_struct_with (dec fuel) fs (pos ++ gbytes gs') = Ok (v, []).
+Proof. exact canon_anyorder_sound. Qed.
+
+(* ... and inside the APDU of a command: same class, instruction and length, the same value, any suffix handed back *)
+Theorem C13_any_order_commands : forall c v pl b, canon_anyorder (c_fields c) v = Some pl ->
+  blen pl <= 65535 -> cf c < 65536 -> framed_enc LAdpu true (Some (cf c)) pl = Ok b ->
+  enc_cmd c v = Ok b /\
+  exists (pos : bytes) (gs : list group), pl = pos ++ gbytes gs /\
+    forall gs', Permutation gs gs' ->
+      exists b', framed_enc LAdpu true (Some (cf c)) (pos ++ gbytes gs') = Ok b' /\ blen b' = blen b /\
+        forall fuel r, (depth_fields (c_fields c) <= S fuel)%nat -> dec_cmd fuel c (b' ++ r) = Ok (v, r).
+Proof. exact canon_cmd_anyorder. Qed.
+
+(* every shipped layout that has tagged fields at all is in that class (all optionals present / all absent) *)
+Theorem C13_shipped_layouts_in_anyorder_class :
+  forallb (fun s => in_anyorder true s || no_tagged s) structs = true /\
+  forallb (fun s => in_anyorder false s || no_tagged s) structs = true.
+Proof. exact shipped_anyorder. Qed.
 
 (* a tag occurring twice is rejected as a duplicate naming that tag *)
 Theorem C13_duplicate_rejected : forall D fs ps gs d after,
@@ -47,9 +71,12 @@ Theorem C13_unknown_tag_is_a_tail : forall fs u junk rest,
   tag_dec false (u ++ junk) = Ok rest -> find_tagged fs (fst rest) 0 = None -> tail_ok fs (u ++ junk).
 Proof. exact unknown_tag_prefix. Qed.
 
-(* non-vacuity: the group hypotheses hold for the date bitmap of the shipped SetTimeAndDate packet *)
+(* non-vacuity: the group hypotheses hold for a date bitmap (the layout SetTimeAndDate has today; written out here,
+   the shipped table is C03's business) *)
+Definition ex_time_and_date : list field :=
+  [Fld "date" (Some 170) (LFixed 3) EBcd (TPrim (PInt 8)); Fld "time" (Some 12) (LFixed 3) EBcd (TPrim (PInt 8))].
 Example C13_ex_group : exists g,
-  group_strict (dec FUEL) S_zvt_packets_SetTimeAndDate {| g_idx := 0; g_tag := 170; g_val := VInt 231005; g_bytes := g |}
+  group_strict (dec FUEL) ex_time_and_date {| g_idx := 0; g_tag := 170; g_val := VInt 231005; g_bytes := g |}
   /\ g = [170; 35; 16; 5].
 Proof.
   destruct (bcd_fixed_field_exact 3 8 (Some 170) 231005) as [g [He Hd]].
@@ -64,11 +91,14 @@ Proof.
     + intros r. apply (Hd 63%nat r).
 Qed.
 Example C13_ex_swapped_order :
-  dec_cmd FUEL {| c_class := 4; c_instr := 1; c_fields := S_zvt_packets_SetTimeAndDate |}
+  dec_cmd FUEL {| c_class := 4; c_instr := 1; c_fields := ex_time_and_date |}
           [4; 1; 8; 12; 18; 52; 86; 170; 35; 16; 5] = Ok (VRec [VInt 231005; VInt 123456], []).
 Proof. vm_compute. reflexivity. Qed.
 
 Print Assumptions C13_perm_invariant.
+Print Assumptions C13_any_order_for_the_class.
+Print Assumptions C13_any_order_commands.
+Print Assumptions C13_shipped_layouts_in_anyorder_class.
 Print Assumptions C13_duplicate_rejected.
 Print Assumptions C13_missing_all_named.
 Print Assumptions C13_unknown_tag_is_a_tail.
